@@ -33,22 +33,41 @@ Live == More /\ ~fin /\ ~st.aborted
 
 TIssue == /\ Live /\ Ln.e = "issue"
           /\ Ln.a \in Actors(P) /\ st.ph[Ln.a] = "run" /\ st.pc[Ln.a] = Ln.k /\ Cur(P, st, Ln.a).op = Ln.op
-          /\ st' = [st EXCEPT !.ph[Ln.a] = "issued"]
+          /\ st' = IF IsLocal(P, st, Ln.a) THEN LocalRet(P, st, Ln.a)          \* no simcall: returns at once
+                    ELSE [st EXCEPT !.ph[Ln.a] = "issued"]
           /\ Consume /\ UNCHANGED <<pid, pend, fin>>
 
-THandle == /\ Live /\ Ln.e = "handle"
-           /\ Ln.a \in Actors(P) /\ st.ph[Ln.a] = "issued"
-           /\ st' = Handle(P, st, Ln.a)
-           /\ pend' = pend \cup NewlyAnswered(st, st')
+\* the simcall class reported by the kernel must be the one the operation is at
+CallOk(op, sub, call) ==
+  CASE op \in {"put", "puta", "putd"} /\ sub = 1 -> call = "actor::CommIsendSimcall"
+    [] op \in {"get", "geta"} /\ sub = 1 -> call = "actor::CommIrecvSimcall"
+    [] op \in {"mput", "mputa"} /\ sub = 1 -> call = "actor::MessIputSimcall"
+    [] op \in {"mget", "mgeta"} /\ sub = 1 -> call = "actor::MessIgetSimcall"
+    [] op \in {"put", "get", "mput", "mget", "exec"} /\ sub = 2 -> call = "actor::ActivityWaitSimcall"
+    [] op \in {"wait", "waitfor"} -> call = "actor::ActivityWaitSimcall"
+    [] op = "test" -> call = "actor::ActivityTestSimcall"
+    [] OTHER -> TRUE
+
+THandle == /\ Live /\ Ln.e = "handle" /\ Ln.a \in Actors(P)
+           /\ \/ st.ph[Ln.a] = "issued"
+              \/ MoreSub(P, st, Ln.a) /\ Ln.a \notin pend       \* next simcall of the same operation (put = isend + wait)
+           /\ LET base == IF st.ph[Ln.a] = "issued" THEN st ELSE NextSub(P, st, Ln.a) IN
+              /\ CallOk(Cur(P, base, Ln.a).op, base.sub[Ln.a], Ln.call)
+              /\ st' = Handle(P, base, Ln.a)
+              /\ pend' = pend \cup NewlyAnswered(base, st')
            /\ fin' = st'.undef          \* undefined behaviour reached: the rest of this execution is not examined
            /\ Consume /\ UNCHANGED <<pid>>
 
 \* an answer sent by the kernel: either one the semantics already produced, or the completion of a timer that is due
 TAnswer == /\ Live /\ Ln.e = "answer" /\ Ln.a \in Actors(P)
            /\ \/ /\ Ln.a \in pend /\ pend' = pend \ {Ln.a} /\ st' = st
-              \/ /\ Ln.a \notin pend /\ st.ph[Ln.a] = "blocked" /\ Due(st, Ln.a)
+              \/ /\ Ln.a \notin pend /\ CanFire(st, Ln.a)
                  /\ st' = FireTimer(P, st, Ln.a)
                  /\ st'.ph[Ln.a] = "answered"
+                 /\ pend' = pend \cup (NewlyAnswered(st, st') \ {Ln.a})
+              \/ /\ Ln.a \notin pend /\ st.ph[Ln.a] = "blocked" /\ st.blk[Ln.a].kind = "act"
+                 /\ CanComplete(st, st.blk[Ln.a].o)                 \* the activity it waits for completes
+                 /\ st' = Complete(P, st, st.blk[Ln.a].o)
                  /\ pend' = pend \cup (NewlyAnswered(st, st') \ {Ln.a})
            /\ Consume /\ UNCHANGED <<pid, fin>>
 
@@ -59,22 +78,30 @@ TSilentFire == /\ Live
                     /\ st' = FireTimer(P, st, a)
                     /\ st'.ph[a] = "blocked"
                /\ UNCHANGED <<pid, l, pend, fin>>
+\* silent: an activity nobody is blocked on completes (asynchronous / detached operations)
+TSilentComplete == /\ Live
+                   /\ \E c \in 1..Len(st.act) : CanComplete(st, c) /\ Waiters(P, st, c) = {} /\ st' = Complete(P, st, c)
+                   /\ UNCHANGED <<pid, l, pend, fin>>
 
 TRet == /\ Live /\ Ln.e = "ret" /\ Ln.a \in Actors(P)
-        /\ st.ph[Ln.a] = "answered" /\ Ln.a \notin pend
-        /\ st.pc[Ln.a] = Ln.k /\ st.res[Ln.a] = Ln.res
-        /\ Ln.clk = st.now                                                        \* C03: returns at the exact date
+        /\ st.ph[Ln.a] = "answered" /\ Ln.a \notin pend /\ ~MoreSub(P, st, Ln.a)
+        /\ st.pc[Ln.a] = Ln.k /\ st.res[Ln.a] = Ln.res /\ st.rval[Ln.a] = Ln.val
+        /\ (Ln.clk = st.now \/ (Ln.clk = -7 /\ ~P.timed))                                                       \* C03: returns at the exact date
         /\ \A m \in Mutexes(P) : Ln.own[m] = st.own[m]                             \* Mutex::get_owner()
         /\ \A x \in Sems(P) : Ln.cap[x] = st.val[x]                                \* Semaphore::get_capacity()
         /\ st' = Ret(P, st, Ln.a)
-        /\ Consume /\ UNCHANGED <<pid, pend, fin>>
+        /\ pend' = pend \cup NewlyAnswered(st, st')      \* a terminating actor makes its communications in flight fail
+        /\ Consume /\ UNCHANGED <<pid, fin>>
 
 \* the clock moves only when nobody can run, every produced answer has been sent, and exactly to the next date
 TAdv == /\ Live /\ Ln.e = "adv"
         /\ \/ Ln.clk = st.now /\ st' = st
            \/ /\ Ln.clk > st.now /\ pend = {} /\ CanAdvance(P, st)
-              /\ Ln.clk = MinDate(TimerDates(P, st))
-              /\ st' = Advance(P, st)
+              /\ (TimerDates(P, st) # {} => Ln.clk <= MinDate(TimerDates(P, st)))
+              /\ (FreeRunning(st) = {} => Ln.clk = MinDate(TimerDates(P, st)))    \* C03: exactly to the next date
+              /\ st' = [st EXCEPT !.now = Ln.clk]
+           \/ /\ Ln.clk = -7 /\ ~P.timed /\ pend = {} /\ ~SomeReady(P, st)       \* off-grid date: only programs
+              /\ TimerDates(P, st) = {} /\ FreeRunning(st) # {} /\ st' = st          \* without timed operations
         /\ Consume /\ UNCHANGED <<pid, pend, fin>>
 
 TEnd == /\ More /\ ~fin /\ Ln.e = "end"
@@ -85,9 +112,16 @@ TEnd == /\ More /\ ~fin /\ Ln.e = "end"
                  \/ \E a \in Actors(P) : st.ph[a] = "issued" /\ Handle(P, st, a).aborted
         /\ fin' = TRUE /\ Consume /\ UNCHANGED <<pid, st, pend>>
 
-Next == TReset \/ TSkip \/ TIssue \/ THandle \/ TAnswer \/ TSilentFire \/ TRet \/ TAdv \/ TEnd
+Next == TReset \/ TSkip \/ TIssue \/ THandle \/ TAnswer \/ TSilentFire \/ TSilentComplete \/ TRet \/ TAdv \/ TEnd
 Spec == Init /\ [][Next]_vars
 
+I_MutexOwnership == fin \/ MutexOwnership(P, st)
+I_MutexExclusion == fin \/ MutexExclusion(P, st)
+I_SemConservation == fin \/ SemConservation(P, st)
+I_CvConsistency == fin \/ CvConsistency(P, st)
+I_BarrierGroups == fin \/ BarrierGroups(P, st)
+I_PhaseConsistency == fin \/ PhaseConsistency(P, st)
+I_CommExactlyOnce == fin \/ CommExactlyOnce(P, st)
 Inv == fin \/ KernelInv(P, st)
 
 \* register 1 = highest line consumed so far (needs -workers 1); read by the harness when a trace is rejected
